@@ -137,6 +137,17 @@ CHECKS = {
              'trip; 28 rejection rules; fuzz under ASan; flattened() and iter_flatten_error_instructions against the extracted model.',
         note=TB + ' The DEM parser is not modelled beyond tags/integers; coordinate shifts are checked by C15\'s interpreter, not in DemFlat.',
         design='§4 C08'),
+    'C16': dict(
+        technique='Coq proof that a sampled shot is the parity of the fired errors\' targets (+ flatten = naive execution, equal fibres) + '
+                  'per-shot oracle on the real sampler and its files, replay, 7-sigma statistics',
+        text='Proof: dem_shot_is_xor_of_fired (toggling model of resample = odd-count definition; duplicates cancel, separators ignored), '
+             'flatten_is_naive_execution, fibers_equal. Tie H/O: for random models every shot in DemSampler<W>\'s buffers and in the '
+             'files written by `stim sample_dem` (all det/obs/err formats, shot counts across stripe boundaries) is recomputed from the '
+             'recorded error bits and the absolute errors of the extracted DemFlat model; replay through every input format must '
+             'reproduce the bits; p=0/1 errors never/always fire; firing frequencies and pairwise independence at 7 sigma.',
+        note=TB + ' RNG quality and exact probabilities (float rounding of p) are tested statistically, not proved (C05 covers the '
+                  'sampling primitives).',
+        design='§4 C16'),
 }
 
 PENDING = 'check not yet built in this round (see DESIGN.md §7 phasing); the Coq model for it is planned, not claimed'
